@@ -749,13 +749,15 @@ class BaseModel(ModelInterface):
         """
         if (dataset := BaseModel._get_dataset(data)) is None:
             return
+        algorithm = BaseModel._get_algorithm(
+            algorithm, algorithm_settings, algorithm_settings_path, **kwargs
+        )
         if not self.is_initialized:
+            if algorithm is not None:
+                # the initialization may be random: it has to be seeded as well
+                algorithm._initialize_seed(algorithm.seed)
             self.initialize(dataset)
-        if (
-            algorithm := BaseModel._get_algorithm(
-                algorithm, algorithm_settings, algorithm_settings_path, **kwargs
-            )
-        ) is None:
+        if algorithm is None:
             return
         algorithm.run(self, dataset)
 
